@@ -215,6 +215,14 @@ fn record_frags(rng: &mut Rng, t: usize, c: usize) -> Vec<String> {
             },
         }
     }
+    // now and then a record of many styled fields (a table row, a diff line with per-word colours):
+    // implementations that batch printable runs meet their batch size here
+    if rng.chance(1, 8) {
+        for k in 0..*rng.pick(&[9usize, 17, 18, 33, 40, 70]) {
+            v.push(format!("\x1b[3{}m", k % 8));
+            v.push(format!("f{k}"));
+        }
+    }
     v.push("\x1b[m".into());
     v.push(">".into());
     v
